@@ -208,7 +208,8 @@ fn gen_aig_struct(rng: &mut StdRng) -> Aig {
     let ext = rng.gen_bool(0.4);
     let b: Vec<usize> = if ext { (0..rng.gen_range(0..3)).map(|_| lit(rng)).collect() } else { vec![] };
     let c: Vec<usize> = if ext { (0..rng.gen_range(0..2)).map(|_| lit(rng)).collect() } else { vec![] };
-    let j: Vec<Vec<usize>> = if ext { (0..rng.gen_range(0..2)).map(|_| (0..rng.gen_range(0..3)).map(|_| lit(rng)).collect()).collect() } else { vec![] };
+    // several justice properties, empty ones at the start, in the middle and at the end
+    let j: Vec<Vec<usize>> = if ext { (0..rng.gen_range(0..5)).map(|_| (0..[0usize, 0, 1, 2, 3][rng.gen_range(0..5)]).map(|_| lit(rng)).collect()).collect() } else { vec![] };
     let f: Vec<usize> = if ext { (0..rng.gen_range(0..2)).map(|_| lit(rng)).collect() } else { vec![] };
     let latch_next = (0..l).map(|_| (lit(rng), rng.gen_range(0..4u8))).collect();
     Aig { m, i, l, o, b, c, j, f, latch_next, ands }
